@@ -62,6 +62,12 @@ func (l *Loop) Run() {
 		l.ran++
 		ev.Run()
 	}
+	if len(l.q) > 0 {
+		// the event budget ran out with work still queued: whatever an end-of-run oracle would conclude from
+		// the missing deliveries is the harness's doing, not the library's (Ctx.Violate drops it)
+		l.C.Truncated = true
+		l.C.Probe("event-budget-exhausted")
+	}
 	l.C.Stats.SimTimeNs += l.C.Now - start
 	l.C.Stats.Events += uint64(l.ran)
 }
